@@ -1,6 +1,6 @@
 (* C06 - the printed cells of a regular file's row; the percentages of the summary add up to 100 *)
 From Coq Require Import ZArith QArith String Bool Arith Lia Permutation List.
-From CBI Require Import Lib.Data Lib.Res Model.C06 Spec.C06 Proofs.C06 Proofs.C06tree Proofs.C06letters Proofs.C06rowsx.
+From CBI Require Import Lib.Data Lib.Res Model.C06 Spec.C06 Proofs.C06 Proofs.C06tree Proofs.C06more Proofs.C06letters Proofs.C06rowsx.
 Import ListNotations.
 Local Open Scope Z_scope.
 
@@ -66,4 +66,29 @@ Proof.
       { rewrite Hr, rows_count. rewrite (sum_if_perm _ _ _ (sort_len_perm _)). apply setmap_total. }
       rewrite S. field. intros E. apply Hz. unfold Qeq in E. cbn in E. lia.
     + eapply Forall_impl; [|exact Hrows]. intros r [_ B]. exact B.
+Qed.
+
+(* ---------- the three reports agree on the totals ---------- *)
+Local Open Scope Z_scope.
+Definition export_total (sel : entry -> list Z) (files : list file) : Z :=
+  fold_right (fun f a => if counted f then Z.of_nat (List.length (sel (export_file f))) + a else a) 0 files.
+
+Lemma sum_if_split P m : sm_total m = sum_if P m + sum_if (fun k => negb (P k)) m.
+Proof.
+  unfold sm_total. induction m as [|kv m IH]; [reflexivity|]. rewrite !sum_if_cons, IH. destruct (P (fst kv)); cbn [negb]; lia.
+Qed.
+
+Theorem reports_agree files : Forall file_ok files -> links_ok files -> (forall f, In f files -> fpath f <> []) ->
+  let used := export_total eused files in
+  let unused := export_total eunused files in
+  sum_if (fun k => negb (is_empty k)) (get_setmap files) = used /\
+  sum_if is_empty (get_setmap files) = unused /\
+  sm_total (get_setmap files) = used + unused /\
+  tsm (files_tree false files) = get_setmap files.
+Proof.
+  intros Hok Hl Hne used unused. destruct (partition files Hok) as [Hp _].
+  assert (A : sum_if (fun k => negb (is_empty k)) (get_setmap files) = used) by (rewrite Hp; reflexivity).
+  assert (B : sum_if is_empty (get_setmap files) = unused) by (rewrite Hp; reflexivity).
+  split; [exact A|]. split; [exact B|]. split; [|apply root_setmap_exact; assumption].
+  rewrite (sum_if_split is_empty), B. rewrite A. lia.
 Qed.
